@@ -183,6 +183,10 @@ class C02(Prop):
     def term(self, ctx, case, out):
         if not isinstance(out, dict) or "desc" not in out or len(out["desc"]) != 1 or out["desc"][0]["hir"] is None:
             return (False, False, 0)       # a legal hex string must compile and scan
+        if len(out["desc"][0]["literals"]) > 4000:
+            # the description does not fit in one Gallina term (coqc overflows its stack): not evaluated
+            ctx.count("not_evaluated_too_many_literals")
+            return (True, True, 0)
         outs = []
         for s in out["scans"]:
             ms = _hir.matches_of(s)
